@@ -26,6 +26,7 @@ ASSUMPTIONS = ["pre-emption inside C code cannot occur under the GIL; hook point
 MIN_NONTRIVIAL = {"quick": 1500, "thorough": 20000}
 REQUIRED_COUNTERS = {"blocked_threads_checked": {"quick": 300, "thorough": 5000},
                      "blocked_inside_exit_method": {"quick": 50, "thorough": 800},
+                     "blocked_inside_aexit_of_a_driven_coroutine": {"quick": 50, "thorough": 800},
                      "schedules": {"quick": 1500, "thorough": 15000},
                      "schedules_target_moved": {"quick": 1000, "thorough": 4000},
                      "schedules_target_moved_at_two_points": {"quick": 1000, "thorough": 4000},
@@ -138,6 +139,21 @@ def blocked_leg(spec, res):
                     ind += 1
             if lvl + 1 < depth:
                 lines.append("    " * ind + "L%d()" % (lvl + 1))
+            elif rng.random() < 0.25:
+                # the thread drives a coroutine by hand and is blocked inside the __aexit__ of its async with:
+                # a *running* coroutine frame in the middle of an await
+                lines.append("    " * ind + "DRIVE(CO())")
+                lines.append("async def CO():")
+                lines.append("    CALLLOG.append(sys._getframe(0))")
+                cind = 1
+                if rng.random() < 0.5:
+                    k += 1
+                    lines.append("    with S(%d) as v%d:" % (k, k))
+                    cind = 2
+                k += 1
+                lines.append("    " * cind + "async with APEXIT(%d):" % k)
+                lines.append("    " * (cind + 1) + "pass")
+                res.count("blocked_inside_aexit_of_a_driven_coroutine")
             elif rng.random() < 0.4:
                 # blocked *inside an exit method*; half of the time one defined under another name
                 k += 1
@@ -189,7 +205,35 @@ def blocked_leg(spec, res):
 
             __exit__ = release
 
-        ns.update(CALLLOG=calllog, PARK=PARK, sys=sys, PEXIT=PEXIT, PEXIT_ALIAS=PEXIT_ALIAS)
+        class APEXIT(object):
+            is_async = True
+
+            def __init__(s, k):
+                s.k = k
+                s.owner = id(sys._getframe(1))
+
+            def __repr__(s):
+                return "<APEXIT k=%d>" % s.k
+
+            async def __aenter__(s):
+                run.log.append(("es", s))
+                run.log.append(("ee", s))
+                return s
+
+            async def __aexit__(s, *e):
+                run.log.append(("xs", s))
+                try:
+                    PARK()
+                finally:
+                    run.log.append(("xe", s))
+
+        def DRIVE(co):
+            try:
+                co.send(None)
+            except StopIteration:
+                pass
+
+        ns.update(CALLLOG=calllog, PARK=PARK, sys=sys, PEXIT=PEXIT, PEXIT_ALIAS=PEXIT_ALIAS, APEXIT=APEXIT, DRIVE=DRIVE)
         code, filename = drive.compile_program(src, "blk")
         exec(code, ns)
         th = threading.Thread(target=ns["L0"])
